@@ -94,6 +94,16 @@ def gen_format():
         gen_hashes.generate(os.path.join(REPO, "src"), os.path.join(COQ, "Gen_hash.v"))
     except Exception as e:
         raise CheckError("translator/hashes.py failed on /repo/src/block.h: %s" % e)
+    import encoder as gen_encoder
+    try:
+        gen_encoder.generate(os.path.join(REPO, "src"), os.path.join(COQ, "Gen_encoder.v"))
+    except Exception as e:
+        raise CheckError("translator/encoder.py failed on /repo/src/cdns_encoder.cpp: %s" % e)
+    import cursors as gen_cursors
+    try:
+        gen_cursors.generate(os.path.join(REPO, "src"), os.path.join(COQ, "Gen_cursors.v"))
+    except Exception as e:
+        raise CheckError("translator/cursors.py failed on /repo/src/block.cpp, block.h: %s" % e)
 
 def prove(pid, extra_props=()):
     """Build Properties_<pid>.vo's dependencies, then (re)compile the property file itself so that the
